@@ -88,6 +88,8 @@ def build_binary(cfg, kind):
             cmd = ["gcc"] + SAN + flags + srcs + [f"{HARNESS}/harness.c", f"{HARNESS}/wrapmalloc.c", "-Wl,--wrap=malloc", "-o", tmp]
         elif kind == "extract":
             cmd = ["gcc"] + SAN + flags + srcs + [f"{HARNESS}/extract.c", "-o", tmp]
+        elif kind == "extractplain":
+            cmd = ["gcc", "-O1", "-g"] + flags + srcs + [f"{HARNESS}/extract.c", "-o", tmp]
         elif kind == "plain":
             cmd = ["gcc", "-O1", "-g"] + flags + srcs + [f"{HARNESS}/harness.c", f"{HARNESS}/wrapmalloc.c", "-Wl,--wrap=malloc", "-o", tmp]
         elif kind == "msan":
@@ -114,17 +116,31 @@ def build_binary(cfg, kind):
 # ---------------------------------------------------------------------------------------
 # T1: extraction -> Generated.lean
 # ---------------------------------------------------------------------------------------
-def extraction(full=False):
+EXTRACT_NOTE = {}
+
+def extraction(full=False, allow_plain=False):
     """Runs the extractor of both charset builds and rewrites RdsModel/Generated.lean if its
-    content changed. Returns (dump_u, dump_n, changed)."""
+    content changed. Returns (dump_u, dump_n, changed).
+    allow_plain: when the ASan+UBSan extractor aborts (undefined behaviour on some table argument: that is C05's
+    business, and C05 calls this without allow_plain), checks of other properties read the tables out of an
+    uninstrumented build instead, so that they judge their own property and not C05's; EXTRACT_NOTE records it."""
     sys.path.insert(0, os.path.join(VERIF, "tools"))
     import genlean
     outs = {}
+    EXTRACT_NOTE.clear()
     for cfg in ("u", "n"):
         exe = build_binary(cfg, "extract")
         r = run([exe] + (["--full"] if full else []))
         if r.returncode != 0:
-            raise BuildError(f"extractor ({cfg}) failed with exit {r.returncode}:\n" + (r.stderr[-3000:] or r.stdout[-500:]))
+            msg = f"extractor ({cfg}) failed with exit {r.returncode}:\n" + (r.stderr[-3000:] or r.stdout[-500:])
+            san = ("runtime error" in msg or "Sanitizer" in msg)
+            if not (allow_plain and san):
+                raise BuildError(msg)
+            exe = build_binary(cfg, "extractplain")
+            r = run([exe] + (["--full"] if full else []))
+            if r.returncode != 0:
+                raise BuildError(msg + f"\n(uninstrumented extractor also failed with exit {r.returncode})")
+            EXTRACT_NOTE[cfg] = "sanitizer abort in the instrumented extractor; tables read from the uninstrumented build: " + msg[-400:].replace("\n", " | ")
         outs[cfg] = r.stdout
     du = genlean.parse_dump(outs["u"])
     dn = genlean.parse_dump(outs["n"])
